@@ -46,6 +46,47 @@ namespace {
 using std::size_t;
 using u64 = std::uint64_t;
 
+// ------------------------------------------------------------------ user-supplied character traits (case-insensitive eq/lt/compare/find)
+constexpr char ci_lower(char c) { return (c >= 'A' && c <= 'Z') ? static_cast<char>(c - 'A' + 'a') : c; }
+struct etl_ci_traits : etl::char_traits<char> {
+    static constexpr auto eq(char a, char b) noexcept -> bool { return ci_lower(a) == ci_lower(b); }
+    static constexpr auto lt(char a, char b) noexcept -> bool { return ci_lower(a) < ci_lower(b); }
+    static constexpr auto compare(char const* a, char const* b, etl::size_t n) -> int
+    {
+        for (etl::size_t i = 0; i < n; ++i) {
+            if (lt(a[i], b[i])) { return -1; }
+            if (lt(b[i], a[i])) { return 1; }
+        }
+        return 0;
+    }
+    static constexpr auto find(char const* s, etl::size_t n, char const& c) -> char const*
+    {
+        for (etl::size_t i = 0; i < n; ++i) {
+            if (eq(s[i], c)) { return s + i; }
+        }
+        return nullptr;
+    }
+};
+struct std_ci_traits : std::char_traits<char> {
+    static constexpr bool eq(char a, char b) noexcept { return ci_lower(a) == ci_lower(b); }
+    static constexpr bool lt(char a, char b) noexcept { return ci_lower(a) < ci_lower(b); }
+    static constexpr int compare(char const* a, char const* b, std::size_t n)
+    {
+        for (std::size_t i = 0; i < n; ++i) {
+            if (lt(a[i], b[i])) { return -1; }
+            if (lt(b[i], a[i])) { return 1; }
+        }
+        return 0;
+    }
+    static constexpr char const* find(char const* s, std::size_t n, char const& c)
+    {
+        for (std::size_t i = 0; i < n; ++i) {
+            if (eq(s[i], c)) { return s + i; }
+        }
+        return nullptr;
+    }
+};
+
 // ------------------------------------------------------------------ subject description (public facts only)
 template <typename T>
 struct WordName;
@@ -1365,6 +1406,61 @@ struct H {
             if (end_step()) { resync(); }
         }
     }
+    // string_view constructor with USER-SUPPLIED TRAITS: the characters are matched with Traits::eq (here case-insensitive),
+    // not with ==.  zero/one are letters; every payload character appears in the case selected by `casing`
+    // (bit i of casing ^ position parity), so characters that are eq to zero/one but not identical occur.
+    void ctor_sv_ci(std::string const& payload, size_t P, size_t S, int nmode, char zero, char one, unsigned casing, int form)
+    {
+        if constexpr (requires(etl::basic_string_view<char, etl_ci_traits> sv, size_t p, size_t n, char z, char o) { E(sv, p, n, z, o); }) {
+            using SV       = etl::basic_string_view<char, etl_ci_traits>;
+            size_t const L = payload.size();
+            if (nmode != 0) { S = 0; }
+            size_t const total = P + L + S;
+            vf::Buf<char> buf(total);
+            auto other_case = [](char c) { return (c >= 'a' && c <= 'z') ? (char)(c - 'a' + 'A') : ((c >= 'A' && c <= 'Z') ? (char)(c - 'A' + 'a') : c); };
+            for (size_t i = 0; i < P; ++i) { buf[i] = (i & 1) ? '-' : '2'; }
+            for (size_t i = 0; i < L; ++i) {
+                char c     = payload[i] == '1' ? one : zero;
+                bool alt   = ((casing >> (i % 8)) ^ (casing >> 9) ^ i) & 1;
+                buf[P + i] = alt ? other_case(c) : c;
+            }
+            for (size_t i = 0; i < S; ++i) { buf[P + L + i] = (i & 1) ? '2' : '-'; }
+            size_t const npos = SV::npos;
+            size_t n          = nmode == 0 ? L : (nmode == 1 ? npos : L + 2);
+            if (form == 2 && !(zero == '0' && one == '1')) { form = 4; }
+            char const* label = "ctor(string_view<custom-traits>,pos,n,zero,one)";
+            char sit[96];
+            std::snprintf(sit, sizeof sit, "%s,%s,%s,case-insensitive-traits", lencls(L), P ? "pos>0" : "pos=0",
+                n == npos ? "n=npos" : (S ? "n<rest" : (n == L ? "n=rest" : "n>rest")));
+            std::string text(buf.data(), total);
+            M nm;
+            try {
+                std::basic_string<char, std_ci_traits> ss(buf.data(), total);
+                nm = M(ss, P, n, zero, one);
+            } catch (std::exception const& ex) {
+                crumbf(label, sit, "harness generated an invalid string");
+                vf::record("inconclusive", "harness:std-threw", ex.what(), "valid arguments");
+                return;
+            }
+            crumbf(label, sit, "text='%s' pos=%zu n=%lld zero=%c one=%c form=%d", text.c_str(), P, n == npos ? -1LL : (long long)n, zero, one, form);
+            begin_step();
+            SV sv(buf.data(), total);
+            if (form == 2) {
+                e = E(sv, P, n);
+            } else {
+                e = E(sv, P, n, zero, one);
+            }
+            m = nm;
+            buf.check("string_view<custom-traits> ctor source");
+            vf::cover(label, vf::mix(vf::mix(cfgh, vf::fnv(text.c_str())), vf::mix(P * 8 + S, (u64)nmode * 1000 + (u64)zero * 7 + (u64)one)), true);
+            if (vf::want_sample(label)) {
+                vf::sample(label, "%s(ci_view('%s'), pos=%zu, n=%lld, '%c', '%c') -> %s", subj, text.c_str(), P, n == npos ? -1LL : (long long)n, zero,
+                    one, m.to_string().c_str());
+            }
+            observe(e, m);
+            if (end_step()) { resync(); }
+        }
+    }
     // char const* constructor: [P junk skipped by the caller][L payload][S junk] [NUL] ; n: nmode 0 -> L, 1 -> npos (S==0).
     // term == false (only with an explicit n): the exact-size block has NO terminator, so an implementation that
     // measures the string instead of taking exactly n characters reads out of the block (std: basic_string(str, n)).
@@ -1457,6 +1553,16 @@ struct H {
         }
         for (size_t L : lens) {
             std::string pl = payload_of(a, L);
+            if constexpr (std::is_same_v<C, char>) {
+                if (!unterminated) {
+                    unsigned cs = (unsigned)(a.count() * 37 + L);
+                    ctor_sv_ci(pl, 0, 0, 1, 'x', 'y', cs, 4);
+                    ctor_sv_ci(pl, 2, 3, 0, 'X', 'y', cs + 1, 4);
+                    ctor_sv_ci(pl, 0, 0, 2, 'a', 'B', cs + 2, 4);
+                    ctor_sv_ci(pl, 2, 0, 1, 'Q', 'Z', 0x155, 4); // every character in the other case
+                    ctor_sv_ci(pl, 0, 0, 0, '0', '1', cs, 2);    // digits: the traits change nothing
+                }
+            }
             for (CP const& cp : chars) {
                 for (size_t P : {size_t(0), size_t(2)}) {
                     if (unterminated) { break; }
@@ -1496,6 +1602,24 @@ struct H {
 
     // ---------------------------------------------------------------- value sets
     static constexpr bool small = N <= 9;
+    static constexpr bool big   = N > 129;   // widths beyond a word type's range of counts: per-position sweeps use edge positions only
+    static constexpr bool giant = N > 4096;  // thorough only: whole-set operations and observers on a few values
+    static std::vector<size_t> sweep_positions()
+    {
+        std::vector<size_t> ps;
+        if constexpr (!big) {
+            for (size_t p = 0; p < N; ++p) { ps.push_back(p); }
+        } else {
+            size_t const cand[14] = {0, 1, 7, 8, N - 1, N - 2, 254, 255, 256, WB - 1, WB, N / 2, 65535, 65536};
+            for (size_t c : cand) {
+                size_t p = c % N;
+                bool dup = false;
+                for (size_t x : ps) { dup = dup || x == p; }
+                if (!dup) { ps.push_back(p); }
+            }
+        }
+        return ps;
+    }
     static u64 n_values() { return small ? (1ull << N) : 16; }
     static M value(u64 k)
     {
@@ -1595,8 +1719,55 @@ struct H {
     }
 
     // ---------------------------------------------------------------- enumerated case: everything from value #k
+    // widths in the tens of thousands (thorough): construction routes, whole-set and binary operations, single-bit
+    // operations at word/count-range edges, every observer after each step
+    void giant_case(u64 k)
+    {
+        M const a = value(k);
+        unsigned const routes[4] = {0, 1, 2, 4};
+        for (unsigned r : routes) { build_state(a, r); }
+        E const base = e;
+        auto from_base = [&] {
+            sub("copy-from-base");
+            e = base;
+            m = a;
+        };
+        int const whole[5] = {W_SET, W_RESET, W_FLIP, W_NOT, X_XOR_A_SELF};
+        for (int op : whole) {
+            if (!supported(op)) { continue; }
+            from_base();
+            step(op, Arg{});
+        }
+        for (u64 j : {u64(1), u64(3), u64(6)}) {
+            M const b = value(j);
+            E ob      = build_operand(b, (unsigned)((k + j) % 3));
+            Arg ar;
+            ar.b  = &b;
+            ar.ob = &ob;
+            for (int op = B_AND_A; op <= B_XOR_A; ++op) {
+                from_base();
+                step(op, ar);
+            }
+        }
+        int const singles[6] = {S_SET1, S_RESET1, S_USET1, S_URESET, S_UFLIP, S_REF_FLIP};
+        for (int op : singles) {
+            if (!supported(op)) { continue; }
+            for (size_t p : {size_t(0), size_t(65535) % N, size_t(65536) % N, N - 1}) {
+                Arg ar;
+                ar.p = p;
+                from_base();
+                step(op, ar);
+            }
+        }
+        ctor_ull(low64(a) | 1ull << 63);
+    }
+
     void enum_case(u64 k)
     {
+        if constexpr (giant) {
+            giant_case(k);
+            return;
+        }
         M const a = value(k);
         std::vector<E> bases;
         for (unsigned r = 0; r < kRoutes; ++r) {
@@ -1612,7 +1783,7 @@ struct H {
         // single-bit operations x every position
         for (int op = 0; op <= C_REF_CHAIN_ASSIGN; ++op) {
             if (!supported(op)) { continue; }
-            for (size_t p = 0; p < N; ++p) {
+            for (size_t p : sweep_positions()) {
                 std::vector<size_t> qs{0};
                 if (needs_pos2(op)) {
                     qs.clear();
@@ -1782,6 +1953,12 @@ struct H {
                         bool term      = r.below(3) != 0;
                         int form       = (int)r.below(5);
                         bool cstr      = pick - ops.size() == 2;
+                        if (r.below(6) == 0) {
+                            char const zs2[3] = {'x', 'N', 'a'}, os2[3] = {'y', 'e', 'A' + 1};
+                            unsigned w = (unsigned)r.below(3);
+                            ctor_sv_ci(pl, P, S, nmode, zs2[w], os2[w], (unsigned)r.next(), 4);
+                            break;
+                        }
                         if (r.below(4) == 0) {
                             wchar_t const zs[5] = {L'0', L'-', L'1', L'\0', L'0'}, os[5] = {L'1', L'+', L'0', L'1', L'\0'};
                             wchar_t z = zs[cs], o = os[cs];
@@ -1852,7 +2029,7 @@ struct H {
     {
         H h(c.tier);
         // thorough: every 8th history is 256 steps long
-        h.random_case(c.rng, (c.tier == vf::Tier::thorough && vf::mix(c.index, 17) % 8 == 0) ? 256 : 64);
+        h.random_case(c.rng, giant ? 3 : (big ? 24 : ((c.tier == vf::Tier::thorough && vf::mix(c.index, 17) % 8 == 0) ? 256 : 64)));
     }
 };
 
@@ -1872,13 +2049,30 @@ Cfg cfg()
     #define VF_SUBJECTS(W) cfg<etl::bitset<W>>()
 #elif VF_KIND == 1
     #define VF_SUBJECTS(W) cfg<etl::basic_bitset<W, std::uint8_t>>(), cfg<etl::basic_bitset<W, std::uint16_t>>()
-#else
+#elif VF_KIND == 2
     #define VF_SUBJECTS(W) cfg<etl::basic_bitset<W, std::uint32_t>>(), cfg<etl::basic_bitset<W, std::uint64_t>>()
+#elif VF_KIND == 3 // widths beyond uint8_t's range of counts
+    #define VF_SUBJECTS(W) cfg<etl::basic_bitset<W, std::uint8_t>>()
+#else // VF_KIND == 4: widths beyond uint16_t's range of counts (thorough)
+    #define VF_SUBJECTS(W) cfg<etl::basic_bitset<W, std::uint16_t>>()
 #endif
 
 std::vector<Cfg> const& configs()
 {
-    static std::vector<Cfg> const v = {VF_SUBJECTS(VF_W0), VF_SUBJECTS(VF_W1), VF_SUBJECTS(VF_W2), VF_SUBJECTS(VF_W3)};
+    static std::vector<Cfg> const v = {VF_SUBJECTS(VF_W0)
+#ifdef VF_W1
+                                           ,
+        VF_SUBJECTS(VF_W1)
+#endif
+#ifdef VF_W2
+            ,
+        VF_SUBJECTS(VF_W2)
+#endif
+#ifdef VF_W3
+            ,
+        VF_SUBJECTS(VF_W3)
+#endif
+    };
     return v;
 }
 
@@ -1886,7 +2080,7 @@ vf::Spec spec(vf::Tier t)
 {
     vf::Spec s;
     for (Cfg const& c : configs()) { s.n_enum += c.n_enum; }
-    s.n_random   = configs().size() * (t == vf::Tier::thorough ? 3000u : 150u);
+    s.n_random   = configs().size() * (VF_KIND == 4 ? 40u : (t == vf::Tier::thorough ? 3000u : 150u));
     s.batch      = 16;
     s.timeout_s  = 300;
     s.exhaustive = true;
